@@ -89,6 +89,29 @@ container.  The cutoff is a running maximum, not a function of the current opera
 has to be copied / stored as it is. -/
 def copy (s : CSampler) : CSampler := s
 
+/-- Restore through a manager hook (`QmcIsingGraph::new_with_rng_with_manager_hook(.., cutoff, ..,
+|_, _| saved.clone())`, `Qmc::new_with_state_with_manager_hook` + `set_cutoff(cutoff)`): the hook's
+container, `ops.set_cutoff(cutoff)` (grow only), sampler field = the cutoff the user passed. -/
+def restore (c : Nat) (occ : List Bool) : CSampler := { cutoff := c, occ := growOcc occ c }
+
+/-- every operator sits in a slot below the sampler cutoff.  Weaker than `Inv`: the container may keep
+trailing empty slots beyond a cutoff the user set by hand (`set_cutoff(c)` overwrites the field with ANY
+`c`, also one below the current cutoff).  This is the domain of the sweep: `cutoff - n` is then the
+number of free slots below the cutoff. -/
+def Fits (s : CSampler) : Prop := countOcc (s.occ.drop s.cutoff) = 0
+
+/-- decider for `Fits` (driver) -/
+def fitsB (s : CSampler) : Bool := countOcc (s.occ.drop s.cutoff) == 0
+
+/-- A rule that is applied **only when the sweep added operators** ("only a sweep which added
+operators can have outgrown the cutoff" — NOT the code's rule; kept for the negative example in
+QmcProps/C12.lean: it is the same function on every state the library alone produces and loses the
+margin after a user-supplied cutoff). -/
+def guardedStep (d : Nat → Bool → Bool) (s : CSampler) : CSampler :=
+  let occ' := sweepOcc d s.cutoff s.occ
+  { cutoff := if countOcc s.occ < countOcc occ' then nextCutoff s.cutoff (countOcc occ') else s.cutoff,
+    occ := occ' }
+
 /-- a run: one decision function per time step -/
 def run (ds : List (Nat → Bool → Bool)) (s : CSampler) : CSampler := ds.foldl (fun s d => timestep d s) s
 
@@ -140,6 +163,33 @@ def applyPair (p : CSampler × CSampler) : PairAction → CSampler × CSampler
 
 def runPair (acts : List PairAction) (p : CSampler × CSampler) : CSampler × CSampler :=
   acts.foldl applyPair p
+
+/-- What a user can do to ONE sampler between time steps as far as the cutoff is concerned: a time
+step (any slot decisions), `set_cutoff(c)` / `set_op_cutoff(c)` with **any** `c` (below, at or above the
+current cutoff), a restore of the saved container into a new sampler with cutoff `c`. -/
+inductive UserAction where
+  | step (d : Nat → Bool → Bool)
+  | setCut (c : Nat)
+  | restore (c : Nat)
+
+def applyUser (s : CSampler) : UserAction → CSampler
+  | .step d => CSampler.timestep d s
+  | .setCut c => CSampler.setCutoff c s
+  | .restore c => CSampler.restore c s.occ
+
+/-- the states reached by a user history, each tagged with "was reached by a time step" -/
+def userTrace : List UserAction → CSampler → List (Bool × CSampler)
+  | [], _ => []
+  | a :: t, s =>
+    ((match a with | .step _ => true | _ => false), applyUser s a) :: userTrace t (applyUser s a)
+
+/-- the user-supplied cutoffs of a history fit the string they are applied to (no operator at or
+beyond the new cutoff) -/
+def UserValid : List UserAction → CSampler → Prop
+  | [], _ => True
+  | .step d :: t, s => UserValid t (CSampler.timestep d s)
+  | .setCut c :: t, s => countOcc (s.occ.drop c) = 0 ∧ UserValid t (CSampler.setCutoff c s)
+  | .restore c :: t, s => countOcc (s.occ.drop c) = 0 ∧ UserValid t (CSampler.restore c s.occ)
 
 /-- maximum of a list of cutoffs (0 for the empty list) -/
 def maxCutoff (cs : List Nat) : Nat := cs.foldl max 0
